@@ -45,6 +45,22 @@ CHECKS = {
             "(in)equality; the answer is symmetric and equals DFA equality of the determinisations. Specification model: the union-find "
             "bookkeeping of NFA.__eq__ is not modelled, its boolean is compared on generated pairs incl. built-equivalent pairs.",
             "", "7/C09"),
+    "C02": ("Coq theorems about executable NPDA/DPDA reader models (Python stack orientation, level-by-level generator, DPDA loop, "
+            "constructor's nondeterminism scan) against a declarative textbook PDA semantics + differential correspondence against /repo",
+            "Proved for all tables, all words, all three acceptance modes and every fuel (unbounded; no validity hypothesis for the NPDA "
+            "statements): stack replace puts the first pushed symbol on top; NPDA successor set = textbook one-move relation; the k-th set "
+            "yielded by NPDA.read_input_stepwise is exactly the set of configurations reachable in k moves; NPDA verdict True => an accepting "
+            "move sequence exists (start configuration included), False => none exists, and an accepted word is accepted on every large "
+            "enough fuel; the DPDA constructor accepts a well-formed table iff no configuration has two applicable moves (only "
+            "NondeterminismError otherwise); on such a table the k-th DPDA configuration is the unique configuration reachable in k moves, "
+            "the DPDA verdict is the textbook verdict, only return/RejectionException end the run, and DPDA and NPDA verdicts coincide on "
+            "every pair of fuels on which both return. Termination is not proved (it does not hold in general): Err Fuel is excluded by "
+            "the statements, as the property's quantifier allows. Model tied to the code by exact comparison of every yielded "
+            "configuration (set), the way the generator ends, accepts_input, the constructor's exception kind, and DPDA-vs-NPDA verdicts "
+            "on the implementation alone; implementation always run under a budget of yields.",
+            "The model follows DPDA.read_input_stepwise AFTER the repair of DESIGN section 8 row 1 (acceptance test on the start "
+            "configuration); on a tree without that repair the check reports the defect as a VIOLATION. A stack symbol '' (PDAStack.top() "
+            "answers '' on an empty stack) is outside the modelled domain.", "7/C02"),
 }
 
 PENDING = {}
